@@ -88,13 +88,17 @@ Definition err_overflow : Z := 6.
 Definition err_type_mismatch : Z := 13.
 Definition err_ifc : Z := 5.
 
-(* Integer.from_int(in_int, unsigned) *)
+(* Integer.from_int(in_int, unsigned)  [as fixed by fixes/D03a.patch: the lower bound after the
+   unsigned wrap is 0, so that struct.pack_into never sees a negative number]
+     if unsigned: (if in_int < 0: in_int += 0x10000); minint, maxint = 0, 0xffff
+     else: minint, maxint = -0x8000, 0x7fff
+     if not (minint <= in_int <= maxint): raise Overflow
+     struct.pack_into('<H' | '<h', buffer, 0, in_int)             -- little endian of in_int mod 2^16 *)
 Definition i_from_int (n : Z) (unsigned : bool) : res (list Z) :=
   let n' := if unsigned && (n <? 0) then n + 65536 else n in
+  let minint := if unsigned then 0 else -32768 in
   let maxint := if unsigned then 65535 else 32767 in
-  if (-32768 <=? n') && (n' <=? maxint) then
-    (if unsigned then pack_into_le 2 [0; 0] n' else Ok (i_encode n'))
-  else Err err_overflow.
+  if (minint <=? n') && (n' <=? maxint) then Ok (i_encode n') else Err err_overflow.
 
 (* ------------------------------------------------------------------------------------------------ *)
 (* glue over the generated Float methods                                                            *)
